@@ -4,5 +4,6 @@ CONSTANTS
   ValU = {1}
   MaxNodes = 7
 INVARIANT Fid
+ACTION_CONSTRAINT FidEdge
 VIEW View
 CHECK_DEADLOCK FALSE
